@@ -137,7 +137,7 @@ def _in_int_context(func, klass):
     return all(found)
 
 
-def _check_first(func):
+def _check_first(func, cls=None, depth=0):
     """the temperature refusal precedes every modification of self"""
     raise_line, mod_line = None, None
     for n in ast.walk(func):
@@ -149,6 +149,19 @@ def _check_first(func):
         if isinstance(n, ast.Call) and isinstance(n.func, ast.Attribute) and n.func.attr == "append":
             mod_line = n.lineno if mod_line is None else min(mod_line, n.lineno)
     if raise_line is None:
+        # the refusal may live in another method of the class that this one hands the operand to (e.g. add_to_data2 ->
+        # add_to_data): then that method's answer counts, provided nothing of self is modified before the hand-over
+        if cls is not None and depth < 2:
+            for n in ast.walk(func):
+                if isinstance(n, ast.Call) and isinstance(n.func, ast.Attribute) and isinstance(n.func.value, ast.Name) \
+                        and n.func.value.id == "self" and n.func.attr != func.name:
+                    try:
+                        callee = _method(cls, n.func.attr)
+                    except Exception:
+                        continue
+                    sub = _check_first(callee, cls, depth + 1)
+                    if sub is not None:
+                        return bool(sub) and (mod_line is None or n.lineno < mod_line)
         return None
     return mod_line is None or raise_line < mod_line
 
@@ -167,7 +180,7 @@ def extract(ck):
             out[tag] = dict(kinds=[d[0] for d in disp], own=[d[2] or d[0] == "Value-defined" for d in disp],
                             accData=[a[0] for a in acc], accLamb=[a[1] for a in acc],
                             rebuildInt=all(_in_int_context(_method(cls, m), klass) for m in ("__add__", "add_to_data2", "copy")))
-        cf1, cf2 = _check_first(_method(cf, "add_to_data")), _check_first(_method(cf, "add_to_data2"))
+        cf1, cf2 = _check_first(_method(cf, "add_to_data"), cf), _check_first(_method(cf, "add_to_data2"), cf)
         out["cf"]["checkTemp"] = cf1 is not None and cf2 is not None
         out["cf"]["checkFirst"] = bool(cf1) and bool(cf2)
         body = "namespace QV.Gen.C09\n"
@@ -181,9 +194,8 @@ def extract(ck):
             body += "def sd%s : List Bool := %s\n" % (k[0].upper() + k[1:], L(out["sd"][k], B))
         body += "def sdRebuildInt : Bool := %s\nend QV.Gen.C09\n" % B(out["sd"]["rebuildInt"])
     except (X.ExtractError, Exception) as e:
-        ck.tie_fail("extraction of the constructor dispatch / maker / addition switches failed: %r" % e)
-        return None
-    ck.gen("C09", body)
+        return ck.tie_fallback("C09", "extraction of the constructor dispatch / maker / addition switches failed: %r" % e)
+    ck.gen("C09", body, facts=out)
     return out
 
 
